@@ -165,7 +165,9 @@ func rR1(c *Ctx, plugins ...string) {
 					continue
 				}
 				want := strings.TrimSuffix(nh.Origin, ".Name()") + ".Type()"
-				if strings.TrimPrefix(th.Origin, "bypass:") != want && !badCast {
+				// the same type with another struct tag (its text went through a format) has the same memory layout
+				got := strings.TrimPrefix(strings.TrimPrefix(th.Origin, "mangled:"), "bypass:")
+				if got != want && !badCast {
 					badCast = true
 					c.Rep.fail(Finding{Rule: "R1", Key: fmt.Sprintf("R1|%s|unsafe-cast-type", p), Plugin: p, Script: rs.Run.Script,
 						Msg: fmt.Sprintf("plugin %s reads the unexported field %s (%s) of an imported struct through *(*%s)(unsafe.Pointer(…)) where %s is the type of %s, not of that field: the field's memory is reinterpreted as another type (wrong comparisons/copies, or a compile error when the operator does not fit)",
@@ -602,6 +604,35 @@ func rConstIndex(c *Ctx, plugins ...string) {
 					c.Rep.pass("R7")
 				}
 			}
+		}
+	}
+}
+
+// rFormatData — Printer.P interprets its first argument as a format. The text of a type (TypeString) may contain a percent sign
+// (a struct tag of an unnamed struct type: `format:"%d"`), so type text must be an operand of %s, never part of the format:
+// otherwise the printed type differs from the user's type (`%!d(MISSING)`) and the generated code does not compile.
+func rFormatData(c *Ctx, plugins ...string) {
+	for _, p := range plugins {
+		seen := map[token.Pos]bool{}
+		n := 0
+		for _, r := range c.R.Runs(p) {
+			if r.Outcome != "accepted" {
+				continue
+			}
+			n++
+			for _, pos := range r.FormatData {
+				if seen[pos] {
+					continue
+				}
+				seen[pos] = true
+				fn := c.Repo.funcAt(pos)
+				c.Rep.fail(Finding{Rule: "R-format", Key: "R-format|" + p + "|" + fn + "|type-text-in-format", Where: []string{c.Repo.pos(pos)}, Plugin: p, Script: r.Script,
+					Msg:    p + ": the text of a type is concatenated into the format argument of Printer.P: a percent sign inside that text (a struct tag such as `format:\"%d\"` of an unnamed struct type) is interpreted as a verb, the emitted type is not the user's type and the package does not compile",
+					Detail: "abstract path: " + r.describe()})
+			}
+		}
+		if len(seen) == 0 && n > 0 {
+			c.Rep.pass("R-format")
 		}
 	}
 }
